@@ -29,6 +29,7 @@ type spKind struct {
 	Elems    func(f *dst.File) []dst.Node
 	Decs     bool // Start/End decorations are part of the enumerated space for this kind
 	KeepLast bool // go/printer keeps a blank line in front of the closing delimiter of this construct
+	Expr     bool // expression-level list: elements may share lines with the delimiters and each other
 }
 
 var spKinds = []spKind{
@@ -40,7 +41,7 @@ var spKinds = []spKind{
 			out = append(out, s)
 		}
 		return out
-	}, true, true},
+	}, true, true, false},
 	{"GenDecl.Specs", func(n int) string {
 		return "package p\n\nvar (\n" + labels(n, func(i int) string { return fmt.Sprintf("\te%d = 0", i) }, "\n") + "\n)\n"
 	}, func(f *dst.File) []dst.Node {
@@ -49,7 +50,7 @@ var spKinds = []spKind{
 			out = append(out, s)
 		}
 		return out
-	}, true, false},
+	}, true, false, false},
 	{"StructType.Fields", func(n int) string {
 		return "package p\n\ntype t struct {\n" + labels(n, func(i int) string { return fmt.Sprintf("\te%d int", i) }, "\n") + "\n}\n"
 	}, func(f *dst.File) []dst.Node {
@@ -58,7 +59,7 @@ var spKinds = []spKind{
 			out = append(out, s)
 		}
 		return out
-	}, true, false},
+	}, true, false, false},
 	{"InterfaceType.Methods", func(n int) string {
 		return "package p\n\ntype t interface {\n" + labels(n, func(i int) string { return fmt.Sprintf("\te%d()", i) }, "\n") + "\n}\n"
 	}, func(f *dst.File) []dst.Node {
@@ -67,7 +68,7 @@ var spKinds = []spKind{
 			out = append(out, s)
 		}
 		return out
-	}, true, false},
+	}, true, false, false},
 	{"SwitchStmt.Cases", func(n int) string {
 		return "package p\n\nfunc f() {\n\tswitch {\n" + labels(n, func(i int) string { return fmt.Sprintf("\tcase e%d:", i) }, "\n") + "\n\t}\n}\n"
 	}, func(f *dst.File) []dst.Node {
@@ -76,7 +77,7 @@ var spKinds = []spKind{
 			out = append(out, s)
 		}
 		return out
-	}, false, true},
+	}, false, true, false},
 	{"CompositeLit.Elts", func(n int) string {
 		return "package p\n\nvar x = []int{\n" + labels(n, func(i int) string { return fmt.Sprintf("\te%d,", i) }, "\n") + "\n}\n"
 	}, func(f *dst.File) []dst.Node {
@@ -85,7 +86,7 @@ var spKinds = []spKind{
 			out = append(out, s)
 		}
 		return out
-	}, false, false},
+	}, false, false, true},
 	{"CallExpr.Args", func(n int) string {
 		return "package p\n\nvar x = g(\n" + labels(n, func(i int) string { return fmt.Sprintf("\te%d,", i) }, "\n") + "\n)\n"
 	}, func(f *dst.File) []dst.Node {
@@ -94,7 +95,84 @@ var spKinds = []spKind{
 			out = append(out, s)
 		}
 		return out
-	}, false, false},
+	}, false, false, true},
+	exprKind("FuncDecl.Params", func(n int) string {
+		return "package p\n\nfunc f(" + labels(n, func(i int) string { return fmt.Sprintf("e%d int", i) }, ", ") + ") {}\n"
+	}, func(f *dst.File) []dst.Node {
+		var out []dst.Node
+		for _, s := range f.Decls[0].(*dst.FuncDecl).Type.Params.List {
+			out = append(out, s)
+		}
+		return out
+	}),
+	exprKind("FuncDecl.Results", func(n int) string {
+		return "package p\n\nfunc f() (" + labels(n, func(i int) string { return fmt.Sprintf("e%d int", i) }, ", ") + ") { return }\n"
+	}, func(f *dst.File) []dst.Node {
+		var out []dst.Node
+		for _, s := range f.Decls[0].(*dst.FuncDecl).Type.Results.List {
+			out = append(out, s)
+		}
+		return out
+	}),
+	exprKind("FuncLit.Params", func(n int) string {
+		return "package p\n\nvar x = func(" + labels(n, func(i int) string { return fmt.Sprintf("e%d int", i) }, ", ") + ") {}\n"
+	}, func(f *dst.File) []dst.Node {
+		var out []dst.Node
+		for _, s := range f.Decls[0].(*dst.GenDecl).Specs[0].(*dst.ValueSpec).Values[0].(*dst.FuncLit).Type.Params.List {
+			out = append(out, s)
+		}
+		return out
+	}),
+	exprKind("InterfaceMethod.Params", func(n int) string {
+		return "package p\n\ntype t interface {\n\tm(" + labels(n, func(i int) string { return fmt.Sprintf("e%d int", i) }, ", ") + ")\n}\n"
+	}, func(f *dst.File) []dst.Node {
+		var out []dst.Node
+		m := f.Decls[0].(*dst.GenDecl).Specs[0].(*dst.TypeSpec).Type.(*dst.InterfaceType).Methods.List[0]
+		for _, s := range m.Type.(*dst.FuncType).Params.List {
+			out = append(out, s)
+		}
+		return out
+	}),
+	exprKind("TypeSpec.TypeParams", func(n int) string {
+		return "package p\n\ntype t[" + labels(n, func(i int) string { return fmt.Sprintf("e%d any", i) }, ", ") + "] int\n"
+	}, func(f *dst.File) []dst.Node {
+		var out []dst.Node
+		for _, s := range f.Decls[0].(*dst.GenDecl).Specs[0].(*dst.TypeSpec).TypeParams.List {
+			out = append(out, s)
+		}
+		return out
+	}),
+	exprKind("ReturnStmt.Results", func(n int) string {
+		return "package p\n\nfunc f() {\n\treturn " + labels(n, func(i int) string { return fmt.Sprintf("e%d", i) }, ", ") + "\n}\n"
+	}, func(f *dst.File) []dst.Node {
+		var out []dst.Node
+		for _, s := range f.Decls[0].(*dst.FuncDecl).Body.List[0].(*dst.ReturnStmt).Results {
+			out = append(out, s)
+		}
+		return out
+	}),
+	exprKind("AssignStmt.Rhs", func(n int) string {
+		return "package p\n\nfunc f() {\n\t" + labels(n, func(i int) string { return fmt.Sprintf("v%d", i) }, ", ") + " = " + labels(n, func(i int) string { return fmt.Sprintf("e%d", i) }, ", ") + "\n}\n"
+	}, func(f *dst.File) []dst.Node {
+		var out []dst.Node
+		for _, s := range f.Decls[0].(*dst.FuncDecl).Body.List[0].(*dst.AssignStmt).Rhs {
+			out = append(out, s)
+		}
+		return out
+	}),
+	exprKind("CaseClause.List", func(n int) string {
+		return "package p\n\nfunc f() {\n\tswitch x {\n\tcase " + labels(n, func(i int) string { return fmt.Sprintf("e%d", i) }, ", ") + ":\n\t}\n}\n"
+	}, func(f *dst.File) []dst.Node {
+		var out []dst.Node
+		for _, s := range f.Decls[0].(*dst.FuncDecl).Body.List[0].(*dst.SwitchStmt).Body.List[0].(*dst.CaseClause).List {
+			out = append(out, s)
+		}
+		return out
+	}),
+}
+
+func exprKind(name string, src func(n int) string, elems func(f *dst.File) []dst.Node) spKind {
+	return spKind{Name: name, Src: src, Elems: elems, Decs: false, KeepLast: false, Expr: true}
 }
 
 var spLabelRe = regexp.MustCompile(`\be\d+\b|[st]\d+\.\d+`)
@@ -288,7 +366,7 @@ func checkC05(c *Ctx) {
 			}
 			return
 		}
-		b, _ := json.Marshal(obj{"kind": j.k.Name, "elems": j.es, "lines": lines, "text": text, "keepLast": j.k.KeepLast})
+		b, _ := json.Marshal(obj{"kind": j.k.Name, "elems": j.es, "lines": lines, "text": text, "keepLast": j.k.KeepLast, "expr": j.k.Expr})
 		recs[i] = b
 		if i%4001 == 0 {
 			c.Sample(obj{"kind": j.k.Name, "elems": j.es, "lines": lines})
@@ -324,7 +402,7 @@ func init() {
 			if msg != "" {
 				return msg
 			}
-			b, _ := json.Marshal(obj{"kind": k.Name, "elems": r.Elems, "lines": lines, "text": text, "keepLast": k.KeepLast})
+			b, _ := json.Marshal(obj{"kind": k.Name, "elems": r.Elems, "lines": lines, "text": text, "keepLast": k.KeepLast, "expr": k.Expr})
 			c := newCtx("C05", "quick", 1, "model_checking")
 			out := ""
 			validateTracesF(c, "SpacingTraceMC", spacingTraceCfg, map[string][]byte{"SpacingTraceMC.tla": []byte(spacingTraceMC)}, []traceItem{{Key: "replay", Trace: append(b, '\n'), Events: 1}}, 10, false, func(it traceItem, res *TLCResult) {
